@@ -130,6 +130,14 @@ ROUND3 = {
 
 # what the fourth round added (ten properties)
 ROUND4 = {
+ "C01": "Fourth round: keytab realms of any letter case and tickets naming them in another case, the keytab-principal override written as name@REALM, address lists of mixed types.",
+ "C06": "Fourth round: keys that share a prefix with the real key (extended by non-zero bytes, filled up to other legal sizes, cut short) must not decrypt; zero-extended keys only counted for the HMAC-keyed etypes 19, 20, 23.",
+ "C07": "Fourth round: the checksums other plausible derivations give (other usages, Ki/Ke/underived key, untranslated RC4 message type) must verify false for every case.",
+ "C10": "Fourth round: user-to-user TGS requests, clients built from credential caches across the end times of the imported tickets, conflicting ETYPE-INFO2 / ETYPE-INFO hints for every credential kind.",
+ "C11": "Fourth round: a shared client.Cache value (RemoveEntry, JSON) under the race detector.",
+ "C14": "Fourth round: keytab.Load of files from header-only to over 1 MiB.",
+ "C15": "Fourth round: client caches with X.500-style realms.",
+ "C16": "Fourth round: server host names in mixed case (compared without regard to case; the Config must stay unchanged).",
  "C02": "Fourth round: the process's FIRST verifications made concurrently in 48 / 600 fresh child processes (at-most-once oracle plus race reports of the child), clean-up racing presentations for a client whose earlier entries have all expired, and histories that use several MaxClockSkew values in one process.",
  "C03": "Fourth round: INVALID and other ticket flags with and without starttime, authenticators and tickets sealed under other key usages, replay histories across clean-up sweeps under the virtual clock.",
  "C09": "Fourth round: crowded keytabs (same name in other realms, previous key version, other etypes) with replies sealed under those keys; correct replies and KRB-ERRORs padded to exact sizes up to 4096 bytes over UDP.",
